@@ -56,6 +56,8 @@ func GenerateAnte(r *rng.R, steps int) []string {
 	for i := 0; i < int(2*g.vp)+2; i++ {
 		g.block()
 	}
+	// the whole application exported and a fresh one started from the document (committed state: right after a block)
+	g.emit("genesis")
 	return g.ops
 }
 
@@ -72,6 +74,10 @@ func (g *anteG) roundStart() uint64 { return uint64(g.height) - uint64(g.height)
 
 func (g *anteG) step() {
 	r := g.r
+	if r.P(1, 30) {
+		g.block()
+		g.emit("genesis")
+	}
 	if r.P(1, 25) {
 		// governance changes the settlement gas prices in mid-history: later transactions pay the new price
 		g.emit("setprices %s", rng.Pick(r, []string{"setl:0.0003,uusdc:1", "setl:0.00015,uusdc:2", "setl:0.0001,uusdc:1", "setl:0.00025,uusdc:0.5"}))
